@@ -55,6 +55,24 @@ Proof.
   - apply eqb_prop. exact D4.
 Qed.
 
+(* never a hang: no class of the table is left without a reply on a connection that stays open *)
+Definition not_hang (a : action) : bool := match a with NoReplyKeep => false | _ => true end.
+Lemma never_hangs_check : forallb (fun ci => not_hang (route gen_facts ci)) exc_table = true.
+Proof. vm_compute. reflexivity. Qed.
+Lemma never_hangs : forall ci, In ci exc_table -> route gen_facts ci <> NoReplyKeep.
+Proof.
+  intros ci H E. pose proof (forallb_In _ _ _ never_hangs_check H) as D. cbv beta in D. rewrite E in D. discriminate.
+Qed.
+
+(* with the re-raise moved inside the `if not isinstance(xv, ConnectionClosedError)` block that class is
+   neither answered nor re-raised: the caller blocks *)
+Definition facts_guarded_reraise : facts := {|
+  f_catch := f_catch facts_today; f_noreply := f_noreply facts_today; f_reply_if := f_reply_if facts_today;
+  f_reply_unless := f_reply_unless facts_today; f_reraise := f_reraise facts_today; f_reraise_guarded := true;
+  f_batch_catch := f_batch_catch facts_today; f_batch_tb := true; f_send_sets_tb := true; f_fallback := true;
+  f_fallback_catch := f_fallback_catch facts_today; f_fallback_class := c_PyroError;
+  f_fallback_tb := true; f_client_release := f_client_release facts_today |}.
+
 Lemma fallback_releases : releases gen_tables gen_facts c_PyroError = false /\ releases gen_tables gen_facts c_TypeError = false.
 Proof. vm_compute. split; reflexivity. Qed.
 
@@ -241,7 +259,7 @@ Proof. vm_compute. reflexivity. Qed.
    content whose serialisation raises anything else (here KeyError from a __getstate__) gets no reply *)
 Definition facts_narrow_fallback : facts := {|
   f_catch := f_catch facts_today; f_noreply := f_noreply facts_today; f_reply_if := f_reply_if facts_today;
-  f_reply_unless := f_reply_unless facts_today; f_reraise := f_reraise facts_today;
+  f_reply_unless := f_reply_unless facts_today; f_reraise := f_reraise facts_today; f_reraise_guarded := false;
   f_batch_catch := f_batch_catch facts_today; f_batch_tb := true; f_send_sets_tb := true; f_fallback := true;
   f_fallback_catch := [c_SerializeError; c_TypeError; c_ValueError]; f_fallback_class := c_PyroError;
   f_fallback_tb := true; f_client_release := f_client_release facts_today |}.
@@ -253,3 +271,15 @@ Lemma narrow_fallback_loses_reply : forall s,
   r_out (run quirks_none gen_tables facts_today std_codec (std_serr gen_tables) std_ctor s KPlain
            (badobj_exc c_ValueError c_KeyError) tb0) = OFallback c_PyroError c_ValueError true.
 Proof. destruct s; vm_compute; split; reflexivity. Qed.
+
+Lemma guarded_reraise_hangs : forall s,
+  r_out (run quirks_none gen_tables facts_guarded_reraise std_codec (std_serr gen_tables) std_ctor s KPlain
+           (simple_exc c_ConnectionClosedError) tb0) = OHang /\
+  r_out (run quirks_none gen_tables facts_today std_codec (std_serr gen_tables) std_ctor s KPlain
+           (simple_exc c_ConnectionClosedError) tb0) = OConnLost.
+Proof. destruct s; vm_compute; split; reflexivity. Qed.
+
+(* the traceback delivered is the one of the current call, whatever the exception object carried before *)
+Lemma traceback_of_this_call : forall attrs tbv stale,
+  assoc k_traceback (set_attr k_traceback tbv (set_attr k_traceback stale attrs)) = Some tbv.
+Proof. intros. apply assoc_set_attr. Qed.
